@@ -105,4 +105,14 @@ theorem crRemovedWhen_zero (w : Nat) (e s : Bool) (h : Generated.crRemovedWhen w
 theorem crRemovedWhen_of_zero (e s : Bool) : Generated.crRemovedWhen 0 e s = true := by
   simp [Generated.crRemovedWhen]
 
+theorem tokBytes_app (a b : List Tok) : tokBytes (a ++ b) = tokBytes a ++ tokBytes b := by
+  induction a with
+  | nil => rfl
+  | cons x xs ih => simp [tokBytes, ih]
+
+theorem plainOf_app (a b : List Tok) : plainOf (a ++ b) = plainOf a ++ plainOf b := by
+  induction a with
+  | nil => rfl
+  | cons x xs ih => cases x <;> simp [plainOf, ih]
+
 end Ingest
